@@ -6,8 +6,12 @@
 #ifndef VF_NTHR
 #define VF_NTHR 3
 #endif
+#ifndef NSYNC
 #define NSYNC 8
+#endif
+#ifndef NTRACK
 #define NTRACK 8
+#endif
 extern int __vf_cur;
 unsigned long nondet_ulong(void);
 static unsigned vc[VF_NTHR][VF_NTHR];                 /* vc[t][u]: what t knows of u */
